@@ -14,11 +14,20 @@ use super::load::{load_3i, load_4i};
 #[derive(Clone)]
 pub struct Fe(pub(crate) [i32; 10]);
 
+impl CtEqual for &Fe {
+    fn ct_eq(self, other: Self) -> Choice {
+        // a field element has many limb representations: compare the canonical encodings
+        let p1 = self.to_bytes();
+        let p2 = other.to_bytes();
+        p1.ct_eq(&p2)
+    }
+    fn ct_ne(self, other: Self) -> Choice {
+        self.ct_eq(other).negate()
+    }
+}
 impl PartialEq for Fe {
     fn eq(&self, other: &Fe) -> bool {
-        let &Fe(self_elems) = self;
-        let &Fe(other_elems) = other;
-        self_elems == other_elems
+        self.ct_eq(other).is_true()
     }
 }
 impl Eq for Fe {}
